@@ -52,7 +52,7 @@ CHECKS = {
          "DESIGN.md §4 C05"),
  "C06": ("template extraction of rewriteForRange / rewriteIter / result type; pass-order rule",
          "Decides: consumer loops evaluate their operand exactly once, pull exactly one element per iteration in the loop condition (no prefetch), bind with the loop's own ':='/'=' token; the iterator type is replaced iff the iterator predicate holds, uniformly by seq.Iterator[T] under the file's import name; the post-less runtime loops the consumer is lowered to evaluate their condition once per iteration and never after a break (SEQ.FOR rows with a nil post).",
-         "Completeness of the type replacement in every syntactic position shows as a build error and is not decided; D15 recorded (D32, the loop without a variable, repaired). The iterator-type predicate itself is decided by identity of the type, never by its name (RW.ITERPRED), and what it remembers does not outlive a file. The '=' form is checked for left-hand sides that are fields, elements or dereferences; every path of the pass that finds a range statement asks whether its operand is an iterator.",
+         "Completeness of the type replacement in every syntactic position shows as a build error and is not decided; D15 recorded (D32, the loop without a variable, repaired). The iterator-type predicate itself is decided by identity of the type, never by its name (RW.ITERPRED: on the rewriter its own constructor builds, two questions in a row in both orders, so an answer remembered under a spelling is seen), and what it remembers does not outlive a file. The '=' form is checked for left-hand sides that are fields, elements or dereferences; every path of the pass that finds a range statement asks whether its operand is an iterator.",
          "DESIGN.md §4 C06"),
  "C02": ("abstract interpretation of the seq constructors and resumptions (laziness, suspension, take-and-clear), template extraction of the generator wrapper / Bind / Combine / loop arguments, pattern-term extraction of the Delay-elision whitelist",
          "Decides the structural reasons nothing runs early, late or twice: constructors run nothing; Bind suspends; resumptions run the thunk once inside the advance; Start runs nothing; exhaustion is absorbing; the generator body is exactly Start(Delay(thunk)); the continuation after a yield is the Bind thunk and the yielded expression its unwrapped first argument; loop cond/post/body and both Combine halves are thunks; a Delay is only elided around certified effect-free constructors or Bind with a basic literal.",
